@@ -14,15 +14,27 @@ import (
 )
 
 // detRand is the deterministic byte stream behind uuid.SetRand (one per execution).
-type detRand struct{ n uint64 }
+type detRand struct {
+	s, cur uint64
+	k      int
+}
 
+// splitmix64: a bijection of the 64-bit state, so 8-byte outputs never repeat
+//
 //go:norace
 func (d *detRand) Read(p []byte) (int, error) {
 	for i := range p {
-		d.n++
-		x := d.n * 0x9E3779B97F4A7C15
-		x ^= x >> 29
-		p[i] = byte(x >> 17)
+		if d.k == 0 {
+			d.s += 0x9E3779B97F4A7C15
+			z := d.s
+			z = (z ^ (z >> 30)) * 0xBF58476D1CE4E5B9
+			z = (z ^ (z >> 27)) * 0x94D049BB133111EB
+			d.cur = z ^ (z >> 31)
+			d.k = 8
+		}
+		p[i] = byte(d.cur)
+		d.cur >>= 8
+		d.k--
 	}
 	return len(p), nil
 }
